@@ -27,13 +27,13 @@ def exhaustive(tier):
 def cases(tier, seed):
     rng = np.random.default_rng([11, seed])
     out = []
-    reps = 2 if tier == "quick" else 8
+    reps = 2 if tier == "quick" else 60
     for _ in range(reps):
         for ns in range(1, 5):
             for no in range(1, 4):
                 for mode in ("default", "shared", "repeat"):
                     out.append({"kind": "exhaustive", "ns": ns, "no": no, "mode": mode, "s": int(rng.integers(1 << 30))})
-    nrand = 480 if tier == "quick" else 6000
+    nrand = 480 if tier == "quick" else 80000
     for j in range(nrand):
         out.append({"kind": "random", "ns": int(rng.integers(4, 13)), "no": int(rng.integers(1, 9)) if j % 2 else int(rng.integers(4, 9)),
                     "mode": ["default", "shared", "repeat"][j % 3],
@@ -214,7 +214,7 @@ def run_case(case, ctx):
 
 def requirements(stats, tier):
     need = []
-    if stats.get("extensions_checked") < (1500 if tier == "quick" else 20000):
+    if stats.get("extensions_checked") < (1500 if tier == "quick" else 150000):
         need.append("too few extensions observed: %d" % stats.get("extensions_checked"))
     for m in ("default", "shared", "repeat"):
         if not stats.has("mode", m):
